@@ -85,6 +85,19 @@ class PauliZGate(GeneralGate):
         """Return the parameters for this gate to implement `utry`"""
         return list(-2 * pauliz_expansion(unitary_log_no_i(utry.numpy)))
 
+    def optimize(self, env_matrix: npt.NDArray[np.complex128]) -> list[float]:
+        """
+        Return the optimal parameters with respect to an environment matrix.
+
+        This gate is diagonal with arbitrary phases, so only the diagonal of
+        the environment matters and each phase cancels its entry's argument.
+
+        See :class:`LocallyOptimizableUnitary` for more info.
+        """
+        self.check_env_matrix(env_matrix)
+        phases = np.exp(-1j * np.angle(np.diag(env_matrix)))
+        return self.calc_params(UnitaryMatrix(np.diag(phases), self.radixes))
+
     def __eq__(self, o: object) -> bool:
         return isinstance(o, PauliZGate) and self.num_qudits == o.num_qudits
 
